@@ -686,3 +686,80 @@ func H_C13_embedded() {
 	}
 	vReach("end")
 }
+
+// ---- round 4 ----
+
+// the value, not the rule text, is arbitrary here: every built-in rule on every string of 1..3 arbitrary bytes
+// (control bytes, quotes, backslashes, malformed UTF-8 included -- the bytes the clause builder has to escape or
+// echo), through Var and as a struct field, a map entry and a percent-encoded URL parameter
+type vC13SV struct{ F string }
+
+func vC13ValueBytes(rule string, max int) {
+	s := vndString("s", max)
+	vAssume(len(s) > 0)
+	switch vndChoice("carrier", 4) {
+	case 0:
+		vC13Call("Var(arbitrary bytes) "+rule, func() { _ = Var(s, rule) })
+	case 1:
+		vC13Call("Struct(arbitrary bytes) "+rule, func() { _ = Struct(&vC13SV{F: s}, NewRule().Set("F", rule)) })
+	case 2:
+		vC13Call("Map(arbitrary bytes) "+rule, func() { _ = Map(map[string]string{"k": s}, NewRule().Set("k", rule)) })
+	case 3:
+		vC13Call("Url(arbitrary bytes) "+rule, func() { _ = Url("h?k="+vPctEncode(s), NewRule().Set("k", rule)) })
+	}
+	vReach("end")
+}
+func H_C13_value_to()          { vC13ValueBytes("to=1~2", 2) }
+func H_C13T_value_to()         { vC13ValueBytes("to=1~2", 3) }
+func H_C13_value_eq()          { vC13ValueBytes("eq=2", 2) }
+func H_C13T_value_eq()         { vC13ValueBytes("eq=2", 3) }
+func H_C13_value_in()          { vC13ValueBytes("in=(a/b)", 2) }
+func H_C13T_value_in()         { vC13ValueBytes("in=(a/b)", 3) }
+func H_C13_value_include()     { vC13ValueBytes("include=(a/b)", 2) }
+func H_C13T_value_include()    { vC13ValueBytes("include=(a/b)", 3) }
+func H_C13_value_phone()       { vC13ValueBytes("phone", 2) }
+func H_C13T_value_phone()      { vC13ValueBytes("phone", 3) }
+func H_C13_value_email()       { vC13ValueBytes("email", 2) }
+func H_C13T_value_email()      { vC13ValueBytes("email", 3) }
+func H_C13_value_idcard()      { vC13ValueBytes("idcard", 2) }
+func H_C13T_value_idcard()     { vC13ValueBytes("idcard", 3) }
+func H_C13_value_year()        { vC13ValueBytes("year", 2) }
+func H_C13T_value_year()       { vC13ValueBytes("year", 3) }
+func H_C13_value_year2month()  { vC13ValueBytes("year2month", 2) }
+func H_C13T_value_year2month() { vC13ValueBytes("year2month", 3) }
+func H_C13_value_date()        { vC13ValueBytes("date", 2) }
+func H_C13T_value_date()       { vC13ValueBytes("date", 3) }
+func H_C13_value_datetime()    { vC13ValueBytes("datetime", 2) }
+func H_C13T_value_datetime()   { vC13ValueBytes("datetime", 3) }
+func H_C13_value_int()         { vC13ValueBytes("int", 2) }
+func H_C13T_value_int()        { vC13ValueBytes("int", 3) }
+func H_C13_value_ints()        { vC13ValueBytes("ints", 2) }
+func H_C13T_value_ints()       { vC13ValueBytes("ints", 3) }
+func H_C13_value_float()       { vC13ValueBytes("float", 2) }
+func H_C13T_value_float()      { vC13ValueBytes("float", 3) }
+func H_C13_value_re()          { vC13ValueBytes("re='^a+$'", 2) }
+func H_C13T_value_re()         { vC13ValueBytes("re='^a+$'", 3) }
+func H_C13_value_ip()          { vC13ValueBytes("ip", 2) }
+func H_C13T_value_ip()         { vC13ValueBytes("ip", 3) }
+func H_C13_value_ipv4()        { vC13ValueBytes("ipv4", 2) }
+func H_C13T_value_ipv4()       { vC13ValueBytes("ipv4", 3) }
+func H_C13_value_ipv6()        { vC13ValueBytes("ipv6", 2) }
+func H_C13T_value_ipv6()       { vC13ValueBytes("ipv6", 3) }
+func H_C13_value_unique()      { vC13ValueBytes("unique", 2) }
+func H_C13T_value_unique()     { vC13ValueBytes("unique", 3) }
+func H_C13_value_json()        { vC13ValueBytes("json", 2) }
+func H_C13T_value_json()       { vC13ValueBytes("json", 3) }
+func H_C13_value_prefix()      { vC13ValueBytes("prefix=a", 2) }
+func H_C13T_value_prefix()     { vC13ValueBytes("prefix=a", 3) }
+func H_C13_value_suffix()      { vC13ValueBytes("suffix=a", 2) }
+func H_C13T_value_suffix()     { vC13ValueBytes("suffix=a", 3) }
+func H_C13_value_file()        { vC13ValueBytes("file", 2) }
+func H_C13T_value_file()       { vC13ValueBytes("file", 3) }
+func H_C13_value_dir()         { vC13ValueBytes("dir", 2) }
+func H_C13T_value_dir()        { vC13ValueBytes("dir", 3) }
+func H_C13_value_intsq()       { vC13ValueBytes("ints=';'", 2) }
+func H_C13T_value_intsq()      { vC13ValueBytes("ints=';'", 3) }
+func H_C13_value_datesl()      { vC13ValueBytes("date=/", 2) }
+func H_C13T_value_datesl()     { vC13ValueBytes("date=/", 3) }
+func H_C13_value_msg()         { vC13ValueBytes("json|bad json", 2) }
+func H_C13T_value_msg()        { vC13ValueBytes("json|bad json", 3) }
